@@ -241,6 +241,7 @@ PLANS = {
         rule="exhaustive: every HTYP byte, every MSIN byte, every type-info word over the defined bits 0..17 (2^18) is one event (thorough: plus 3 seeded settings of the reserved bits "
              "each); the reserved-bit sweep counts one evaluation per word; every input is distinct by construction",
         exhaustive={"quick": False, "thorough": True},
+        require={"msin-leg1:msg": 128, "msin-leg2:msg": 128, "tipair-leg:ok": 400},     # the conditional parser legs must be taken (vacuity guard)
         explanation="MC (exhaustive): all 256 HTYP and MSIN bytes (encode o decode = id, field ranges) and all 2^18 type-info words over the defined bits: AcceptRule (operational decode "
                     "accepts exactly the words naming one supported kind with a supported width) and ReencodeLaws (the encoding decodes to the same description, differs from the word "
                     "only in bits unused for that kind, canonical words are fixed points). B (exhaustive on the code side): every HTYP byte through dlt_message / header_type_byte, "
